@@ -28,6 +28,9 @@ func runC16(c *Ctx) {
 
 	R.Rule("R-envelope-per-message", "E2 must-pass-through", "the server clears sender and recipients after every message it has taken (DATA, BDAT; SMTP and LMTP), so the next message on the connection is delivered with exactly the list given for it and its replies are not preceded by those of earlier recipients", 3)
 	obMessageEndResets(c)
+	// LMTP: Close waits for one reply per recipient it recorded; the server gives every accepted occurrence the
+	// delivery's outcome (shared with C13)
+	ruleFillValue(c)
 
 	R.Rule("R-data-writer", "E4 value flow", "Data/LMTPData return a dataCloser around c.text.DotWriter() obtained on the nil-error edge of the DATA command expecting 354", 4)
 	for _, fn := range []string{"(*Client).Data", "(*Client).LMTPData"} {
